@@ -34,3 +34,17 @@ Example C15_nonvacuous :
   thread_obs 0 (observe nat demo_pal [] [ESet 0 0; ESet 1 1; EGet 0; EGet 1; EClear 1; EGet 0; EClear 0])
   = [Some (demo_pal 0); Some (demo_pal 0)].
 Proof. vm_compute. reflexivity. Qed.
+
+(* any number of threads, each running any number of encodes one after another (thread t: the jobs (d, n) = document and
+   number of look-ups): in EVERY interleaving each look-up of t sees the palette of t's encode in progress *)
+Theorem C15_many_encodes :
+  forall (D : Type) (pal : D -> list str) t (jobs : list (D * nat)) (sched : list (ev D)) s,
+    filter (of_thread D t) sched = many_encodes D t jobs ->
+    thread_obs t (observe D pal s sched) = flat_map (fun j => repeat (Some (pal (fst j))) (snd j)) jobs.
+Proof. exact interleaved_many. Qed.
+Print Assumptions C15_many_encodes.
+
+Example C15_many_nonvacuous :
+  filter (of_thread nat 0) [ESet 0 0; ESet 1 1; EGet 0; EClear 0; EGet 1; ESet 0 1; EGet 0; EClear 1; EClear 0]
+  = many_encodes nat 0 [(0, 1); (1, 1)]%nat.
+Proof. vm_compute. reflexivity. Qed.
